@@ -1526,7 +1526,79 @@ Section Tx.
       + intros k old Hin. unfold snap in Hin. apply in_map_iff in Hin. destruct Hin as (k' & Heq & Hin).
         inversion Heq; subst. now apply Hall.
   Qed.
+  (* ---- several WATCH commands before MULTI, B writing between any two of them *)
+  Notation WSNAPS := (watch_snaps St cmd decode_cmd exec kind cmd_get stub_reply).
+
+  (* while A only sends WATCH commands (and B anything): A's watch list grows by exactly the
+     snapshots taken, each at its own instant; nothing already recorded is replaced *)
+  Lemma run2_watching : forall sched y,
+    in_tx _ (txa _ _ y) = false ->
+    Forall (fun p => fst p = true -> exists cm ks, decode_cmd (snd p) = inl cm /\ kind cm = KWatch ks) sched ->
+    txa _ _ (RUN2 y sched) =
+      mkTx _ false (queue _ (txa _ _ y)) (tx_err _ (txa _ _ y)) (watched _ (txa _ _ y) ++ WSNAPS y sched).
+  Proof.
+    induction sched as [|[w v] sched IH]; intros y Ht H.
+    - unfold run2. cbn. rewrite app_nil_r. destruct (txa St cmd y); cbn in *. now subst.
+    - inversion H as [|p l Hp Hl]; subst. unfold run2 in *. cbn [fold_left fst snd watch_snaps].
+      destruct w.
+      + destruct (Hp eq_refl) as (cm & ks & Hd & Hk). cbn [snd] in Hd. rewrite Hd, Hk.
+        assert (Hstep : txa _ _ (STEP2 y true v) =
+                  mkTx _ false (queue _ (txa _ _ y)) (tx_err _ (txa _ _ y))
+                       (watched _ (txa _ _ y) ++ map (fun k => (k, GETR (sst _ _ y) k)) ks)).
+        { unfold step2, handle_frame. rewrite Hd. unfold dispatch. cbn [txs st]. rewrite Ht, Hk.
+          rewrite snapshot_ro. reflexivity. }
+        rewrite IH; [|rewrite Hstep; reflexivity|exact Hl].
+        rewrite Hstep. cbn [queue tx_err watched]. now rewrite <- app_assoc.
+      + rewrite IH; [|exact Ht|exact Hl]. reflexivity.
+  Qed.
+
+  (* A: any number of WATCH commands, B doing anything between them | MULTI | A queues, B does
+     anything | EXEC.  EVERY snapshot counts: EXEC is nil iff for some recorded (key, reply) - the
+     first WATCH of a key included - the key's GET reply at EXEC differs from the recorded one. *)
+  Theorem multi_watch_exec_two_clients y vm cmu ve ce sched0 sched2 :
+    txa _ _ y = tx_idle cmd ->
+    Forall (fun p => fst p = true -> exists cm ks, decode_cmd (snd p) = inl cm /\ kind cm = KWatch ks) sched0 ->
+    decode_cmd vm = inl cmu -> kind cmu = KMulti ->
+    decode_cmd ve = inl ce -> kind ce = KExec ->
+    Forall (fun p => fst p = true -> exists cm, decode_cmd (snd p) = inl cm /\ queueable (kind cm)) sched2 ->
+    let y2 := RUN2 y sched0 in
+    let y3 := STEP2 y2 true vm in
+    let y4 := RUN2 y3 sched2 in
+    let y5 := STEP2 y4 true ve in
+    let q := ACMDS sched2 in
+    let snaps := WSNAPS y sched0 in
+    txa _ _ y5 = tx_idle cmd /\
+    ((exists k old, In (k, old) snaps /\ GETR (sst _ _ y4) k <> old) ->
+       sst _ _ y5 = sst _ _ y4 /\ outa _ _ y5 = outa _ _ y4 ++ [RNilArr]) /\
+    ((forall k old, In (k, old) snaps -> GETR (sst _ _ y4) k = old) ->
+       sst _ _ y5 = fst (RQ (sst _ _ y4) q) /\ outa _ _ y5 = outa _ _ y4 ++ [RArr (snd (RQ (sst _ _ y4) q))] /\
+       length (snd (RQ (sst _ _ y4) q)) = length q).
+  Proof.
+    intros Hidle HW Hdm Hkm Hde Hke HQ. cbv zeta.
+    set (snap := WSNAPS y sched0).
+    assert (H2 : txa _ _ (RUN2 y sched0) = mkTx _ false [] false snap).
+    { rewrite run2_watching; [|rewrite Hidle; reflexivity|exact HW]. rewrite Hidle. reflexivity. }
+    set (y2 := RUN2 y sched0) in *.
+    assert (H3 : txa _ _ (STEP2 y2 true vm) = mkTx _ true [] false snap).
+    { unfold step2, handle_frame. rewrite Hdm. unfold dispatch. rewrite H2. cbn [txs in_tx]. rewrite Hkm. reflexivity. }
+    set (y3 := STEP2 y2 true vm) in *.
+    destruct (run2_queueing sched2 y3) as [H4 _]; [now rewrite H3|exact HQ|].
+    rewrite H3 in H4. cbn [queue tx_err watched app] in H4.
+    set (y4 := RUN2 y3 sched2) in *.
+    pose proof (watch_iff_get_reply_changed (mkCore _ _ (sst _ _ y4) (txa _ _ y4) (outa _ _ y4)) ce) as Hx.
+    cbn [txs st outp] in Hx. rewrite H4 in Hx. cbn [in_tx tx_err queue watched] in Hx.
+    specialize (Hx eq_refl eq_refl Hke). cbv zeta in Hx. destruct Hx as [Hx1 Hx2].
+    assert (Hs5 : STEP2 y4 true ve =
+              let c := DISPATCH (mkCore _ _ (sst _ _ y4) (mkTx _ true (ACMDS sched2) false snap) (outa _ _ y4)) ce in
+              mkSys _ _ (st _ _ c) (txs _ _ c) (txb _ _ y4) (outp _ _ c) (outb _ _ y4)).
+    { unfold step2, handle_frame. rewrite Hde, H4. reflexivity. }
+    rewrite Hs5. cbv zeta. split; [|split].
+    - cbn [txa]. apply exec_leaves_idle; [reflexivity|exact Hke].
+    - intros Hex. rewrite Hx1; [split; reflexivity|exact Hex].
+    - intros Hall. rewrite Hx2; [|exact Hall]. cbn [st outp]. repeat split. apply run_queue_length.
+  Qed.
 End Tx.
+
 
 (* ------------------------------------------------------------------ WATCH over the mini backend *)
 Lemma mexec_get_read_only : forall (s : list (bytes * mval)) k, fst (mexec s (CGet k)) = s.
